@@ -19,7 +19,7 @@ RULE = ('Hypothesis draws a type map {governing value (INTEGER or OID) -> type f
         'documented as held by reference); the governing component may be declared DEFAULT (and then be absent from the '
         'wire); a caller map used for one container type and then for its twin without default map leaves the twin\'s field raw. Non-trivial = constructed inner value, tagged ANY, SET container or override present; distinct = '
         'distinct (map, container, value, codec, switches).')
-RULE += (' ' + "Also: OPTIONAL field, absent governor, a second open type field with its own map, a list after the field, the container inside a tagged CHOICE, nested records whose inner record must see the caller's map, and same-size edits of the default map between two decodings (mapping dropped and another added; governing value re-bound to a type the payload cannot be).")
+RULE += (' ' + "Also: OPTIONAL field, absent governor, a second open type field with its own map, a list after the field, the container inside a tagged CHOICE, nested records whose inner record must see the caller's map, and same-size edits of the default map between two decodings (mapping dropped and another added; governing value re-bound to a type the payload cannot be). Also: the governing component declared after the field it governs.")
 ASSUMPTIONS = ['values are compared by abstract content (pv/core/absval.py)']
 SHARDS = {'quick': (16, 120), 'thorough': (16, 4000)}
 BUDGET = {'quick': 100, 'thorough': 1500}
